@@ -64,6 +64,67 @@ def oldPodsKept (s : BS) : Bool :=
      | _, _ => true)
   | _, _ => true
 
+/-! ### the world invariant (every history; the Rollout controller touches the CloneSet only through two annotations) -/
+
+/-- the blue-green hold `Initialize` installs: no pod ever becomes available, no pod may be taken down -/
+def holdInstalled (wl : Workload) : Bool :=
+  decide (wl.minReadySeconds = maxReady) && decide (CtlBlueGreen.ruUnavailable wl.ru = some (int 0)) && (CtlBlueGreen.ruSurge wl.ru).isSome
+
+/-- the user's settings as `InitOriginalSetting` saves them -/
+def userSetting (u : User) : CtlBlueGreen.Setting := RV.Oracle.CtlBlueGreen.effSetting .cloneSet (userWl u)
+
+/-- what is assumed of the user's configuration: the CloneSet is not paused, `minReadySeconds` is an ordinary value -/
+def userOK (u : User) : Bool := !u.paused && decide (u.minReadySeconds < maxReady) && decide (0 ≤ u.replicas)
+
+/-- configuration part (i): size, not deleting, not paused, the user's update-strategy type -/
+def cfgBase (u : User) (wl : Workload) : Bool :=
+  decide (wl.replicas = some u.replicas) && !wl.deleting && !wl.paused && decide (wl.stype = u.stype)
+
+/-- configuration part (ii): either the saved-settings annotation is absent, the CloneSet has the user's settings and carries
+    no control-info; or the annotation holds exactly the user's settings and the hold is installed -/
+def cfgSaved (u : User) (wl : Workload) : Bool :=
+  match wl.saved with
+  | .none => decide (RV.Oracle.CtlBlueGreen.effSetting .cloneSet wl = userSetting u) && decide (wl.ctl = .none)
+  | .some sv => decide (sv = userSetting u) && holdInstalled wl
+  | .bad => false
+
+/-- configuration part (iii): the partition is absent or the admission webhook's `100%` -/
+def cfgPart (wl : Workload) : Bool := wl.partition.isNone || decide (wl.partition = some (pct 100))
+
+def cfgInv (u : User) (wl : Workload) : Bool := cfgBase u wl && cfgSaved u wl && cfgPart wl
+
+/-- pod part (i): all pods ready, counters consistent -/
+def podBasic (wl : Workload) : Bool :=
+  let st := wl.status
+  decide (st.ready = st.replicas) && decide (st.updatedReady = st.updated) && decide (0 ≤ st.updated) && decide (st.updated ≤ st.ready)
+
+/-- pod part (ii): with one revision at least `replicas` pods run it; with two, at least `replicas` pods are not of the
+    update revision -/
+def podKept (u : User) (b : BW) (wl : Workload) : Bool :=
+  if b.updateRevision = b.currentRevision then decide (u.replicas ≤ wl.status.updated)
+  else decide (u.replicas ≤ wl.status.ready - wl.status.updated)
+
+/-- pod part (iii): while the webhook's partition is in place no pod of a second revision exists -/
+def podPart (b : BW) (wl : Workload) : Bool :=
+  wl.partition.isNone || decide (b.updateRevision = b.currentRevision) || decide (wl.status.updated = 0)
+
+def podInv (u : User) (b : BW) (wl : Workload) : Bool := podBasic wl && podKept u b wl && podPart b wl
+
+def worldInv (u : User) (b : BW) : Bool :=
+  match b.wl with
+  | some wl => cfgInv u wl && podInv u b wl
+  | none => false
+
+/-- the CloneSet is under the blue-green hold, or still where the admission webhook put it -/
+def hold (wl : Workload) : Bool := wl.saved ≠ .none || decide (wl.partition = some (pct 100))
+
+/-- **C01/C04 `bg_old_pods_kept`, world form** — while the hold is on and two revisions exist, at least `replicas` ready pods
+    are of the stable (current) revision -/
+def stableKept (u : User) (b : BW) : Bool :=
+  match b.wl with
+  | some wl => if hold wl ∧ b.updateRevision ≠ b.currentRevision then decide (u.replicas ≤ wl.status.ready - wl.status.updatedReady) else true
+  | none => true
+
 /-! ### C04 / C10: traffic first -/
 
 /-- this Rollout reconcile resumed the workload: it cleared `batchPartition` of the BatchRelease (`finalizingBatchRelease`),
@@ -80,12 +141,14 @@ def resumeIssued (pre post : BS) : Bool :=
 /-- where the traffic has to be before the old (on success) / new (on rollback) pods may go:
     success — everything on the canary Service (weight 100); rollback — the canary route is gone (everything on the stable
     Service); deletion / disabling — either everything is on the new pods already, or the canary route is gone and the
-    stable Service selects every pod -/
-def trafficSettled (ro : RolloutSM.Rollout) (n : Net) : Bool :=
-  if ¬ ro.hasTraffic then true
-  else if ro.phase = .progressing ∧ ro.reason = .finalising then n.canaryIng == some 100
-  else if ro.phase = .progressing ∧ ro.reason = .cancelling then n.canaryIng.isNone
-  else n.canaryIng == some 100 || (n.canaryIng.isNone && n.stableSel.isNone)
+    stable Service selects every pod (or the workload is back on its stable revision: nothing of it is replaced) -/
+def trafficSettled (s : BS) : Bool :=
+  let n := s.net
+  if ¬ s.ro.hasTraffic then true
+  else if s.ro.phase = .progressing ∧ s.ro.reason = .finalising then n.canaryIng == some 100
+  else if s.ro.phase = .progressing ∧ s.ro.reason = .cancelling then n.canaryIng.isNone
+  else n.canaryIng == some 100 ||
+       (n.canaryIng.isNone && (n.stableSel.isNone || decide (s.world.updateRevision = s.world.currentRevision)))
 
 /-- the executor's `Finalize` restored the CloneSet's settings in this BatchRelease reconcile -/
 def settingsReleased (pre post : BS) : Bool :=
@@ -98,7 +161,7 @@ def settingsReleased (pre post : BS) : Bool :=
     the CloneSet controller may remove old pods) only after the Rollout controller has resumed it. -/
 def trafficBeforeScaleDown (pre : BS) (l : Label) (post : BS) : Bool :=
   match l with
-  | .ro => if resumeIssued pre post ∧ ¬ pre.gone then trafficSettled pre.ro pre.net else true
+  | .ro => if resumeIssued pre post ∧ ¬ pre.gone then trafficSettled pre else true
   | .br => if settingsReleased pre post then
              (match pre.br with
               | some b => b.partition.isNone
@@ -225,7 +288,9 @@ def heldBack (s : BS) : Bool :=
 
 def stateOracles (u : User) (s : BS) : List (String × Bool) :=
   [("C01.bg_old_pods_kept", oldPodsKept s), ("C04.bg_old_pods_kept", oldPodsKept s), ("C06.bg_old_pods_kept", oldPodsKept s),
-   ("C05.bg_settings_restored", settingsRestored u s), ("C06.bg_settings_restored", settingsRestored u s)]
+   ("C05.bg_settings_restored", settingsRestored u s), ("C06.bg_settings_restored", settingsRestored u s),
+   ("C05.bg_world_inv", !userOK u || worldInv u s.world), ("C04.bg_world_inv", !userOK u || worldInv u s.world),
+   ("C06.bg_world_inv", !userOK u || worldInv u s.world), ("C01.bg_stable_kept", !userOK u || stableKept u s.world)]
 
 def stepOracles (pre : BS) (l : Label) (post : BS) : List (String × Bool) :=
   [("C04.bg_traffic_before_scale_down", trafficBeforeScaleDown pre l post), ("C10.bg_traffic_before_scale_down", trafficBeforeScaleDown pre l post),
